@@ -155,6 +155,40 @@ class Mon:
             self.rec.nt(("dither", str(before.dtype), before.shape, coeff, bool(kw["in_place"]), float(np.sum(before.astype(np.float64)))))
 
 
+class _OwnArray(np.ndarray):
+    """a user's ndarray subclass"""
+
+
+_MAPPED = {}
+
+
+def _as_subclass(rng, x):
+    import os
+    import tempfile
+
+    x = np.array(x)
+    if rng.random() < 0.5 or x.size == 0:
+        return x.view(_OwnArray)
+    fd, path = tempfile.mkstemp(prefix="c18_", suffix=".raw")
+    os.close(fd)
+    x.tofile(path)
+    m = np.memmap(path, dtype=x.dtype, mode="c", shape=x.shape)  # copy-on-write: writes never reach the file
+    _MAPPED[id(m)] = path
+    return m
+
+
+def _release(xs):
+    import os
+
+    path = _MAPPED.pop(id(xs), None)
+    if path:
+        try:
+            del xs
+            os.unlink(path)
+        except OSError:
+            pass
+
+
 def _signal(rng, n, dtype, two_d=False):
     shape = (int(rng.integers(1, 4)), n) if two_d else (n,)
     if dtype in INTS:
@@ -211,6 +245,18 @@ def run_case(case, rec, mon=None):
                 y = p.apply(x, in_place=False)
                 if n and np.shares_memory(y, x):
                     mon.v("Preemphasize(in_place=False) result shares memory with its input", check="aliasing", op="preemph", dtype=dtype, shape=list(x.shape), coeff=coeff)
+            if rng.random() < 0.2 and n:
+                # the samples as an ndarray subclass (a copy-on-write memory map of a file, a user's own subclass): still the
+                # caller's array, untouched unless in_place
+                xs = _as_subclass(rng, x)
+                rec.count("ndarray_subclass_inputs")
+                try:
+                    p.apply(xs)
+                    P.Dither(float(rng.choice([0.5, 2.0]))).apply(xs)
+                except Exception:
+                    rec.count("ndarray_subclass_inputs_refused")
+                finally:
+                    _release(xs)
             if rng.random() < 0.35 and n:
                 # the same object again on signals of the same shape: earlier results stay what they were
                 rec.count("preemph_objects_called_repeatedly")
@@ -311,13 +357,30 @@ def run_case(case, rec, mon=None):
         import torch
         from pydrobert.speech import torch as T
 
+        old_default = torch.get_default_dtype()
         for j in range(case["n"]):
+            if j == case["n"] // 2:
+                torch.set_default_dtype(torch.float64)  # a process-wide setting a user may change (second half of the case)
+                rec.count("torch_cases_under_default_dtype_float64")
             n = int(rng.choice([0, 1, 2, 3, int(rng.integers(4, 300))]))
             coeff = float(rng.choice([0.97, 0.0, 1.0, float(rng.uniform(-1, 1))]))
             x = rng.standard_normal(n)
-            for dt in (torch.float64, torch.float32):
+            for dt in (torch.float64, torch.float32, torch.float16, torch.bfloat16):
                 xt = torch.tensor(x, dtype=dt)
-                y = T.pytorch_preemphasize(xt, coeff).numpy()
+                yt = T.pytorch_preemphasize(xt, coeff)
+                rec.count("torch_preemph_dtype_checks")
+                if yt.dtype != dt:
+                    mon.v("pytorch_preemphasize returned %s for a %s signal%s" % (yt.dtype, dt, " (default dtype %s)" % torch.get_default_dtype()), check="torch_preemph_dtype",
+                          op="torch_preemph", shape=[n], coeff=coeff)
+                if dt in (torch.float16, torch.bfloat16):
+                    # values: the recurrence to the precision of the narrow type
+                    y16 = yt.to(torch.float64).numpy()
+                    r16 = _ref_preemph(xt.to(torch.float64).numpy(), coeff)
+                    q = 2.0 ** (-7 if dt == torch.bfloat16 else -10)
+                    if y16.shape != r16.shape or not np.all(np.abs(y16 - r16) <= 4 * q * (np.abs(r16) + np.abs(xt.to(torch.float64).numpy()) + 1e-30)):
+                        mon.v("pytorch_preemphasize(%s len %d, coeff %r) differs from the recurrence" % (dt, n, coeff), check="torch_preemph", op="torch_preemph", shape=[n], coeff=coeff)
+                    continue
+                y = yt.numpy()
                 ref = _ref_preemph(xt.numpy(), coeff)
                 rec.ev()
                 rec.count("torch_preemph_calls")
@@ -357,6 +420,7 @@ def run_case(case, rec, mon=None):
         nz = T.pytorch_dither(xt, 0.7).numpy()
         if not (abs(nz.mean()) <= 6 * 0.7 / np.sqrt(N) and abs(nz.std() - 0.7) <= 6 * 0.7 / np.sqrt(2 * N)):
             mon.v("pytorch_dither(0.7) noise mean %g std %g" % (nz.mean(), nz.std()), check="torch_dither_moments", op="torch_dither", coeff=0.7)
+        torch.set_default_dtype(old_default)
         rec.sample({"kind": kind, "n": case["n"]})
     if own:
         monitor.report(rec)
